@@ -1,6 +1,8 @@
 (* C13 (group A): importers swisscard2, viac, cumulus, postfinance, swisscard, supercard.
    input  = "<flags> | <hex file> | <items>"   (see harness/c13a.go)
    model  = the importer model run on the items (the records Go's reader delivered)
+            (csv-records: for the importers with a plain csv reader the items are also derived from the statement's
+             bytes <hex file> with the extracted reader model Model/Csv.v, Model/CsvImp.v, and must be the same)
    spec   = evaluated on the binary's output by the observer (it needs `knut print`), which
             appends " | print=... | rows=..." to the observation; here that is turned into
             the verdict.  Then the statement-level specification (Spec/ImpStmtA.v, theorems
@@ -53,9 +55,11 @@ let importer_cfg : string -> K.csv_cfg option = function
 
 (* the reader items the model derives from the statement's bytes; None = reader not modelled (observed items stand) *)
 let items_from_bytes (imp : string) (hex : string) : K.citem list option =
-  match importer_cfg imp with
+  let bytes = str_of_string (if hex = "-" then "" else unhex_plain hex) in
+  if imp = "postfinance" then Some (K.csv_items_bom K.cfg_postfinance bytes)   (* utfbom.SkipOnly in front *)
+  else match importer_cfg imp with
   | None -> None
-  | Some cfg -> Some (K.csv_items cfg (str_of_string (if hex = "-" then "" else unhex_plain hex)))
+  | Some cfg -> Some (K.csv_items cfg bytes)
 
 (* "" when the items the harness recorded (Go's reader) are the items the model reads from the bytes *)
 let csv_records_verdict (imp : string) (hex : string) (items : string) : string =
@@ -181,7 +185,7 @@ let run (imp : string) (inp : string) (obs : string) : string * string =
          outcomes are counted in the evidence (input_distribution). *)
       "ok" in
   (* the records the importer model starts from are the records the csv model reads from the statement's bytes
-     (swisscard2, swisscard, cumulus; every kind of case) *)
+     (swisscard2, swisscard, cumulus, postfinance; every kind of case) *)
   let spec = match csv_records_verdict imp hex items with "" -> spec | v -> v in
   (* the observation of a panic carries Go's message; the model only says PANIC *)
   let model_line = if model = "PANIC" && cls = "PANIC" then base else model in
